@@ -131,7 +131,8 @@ CLAIMS = {
     note="Proved: the theorems above, about Model/Anf.lean and Sem. Caveat in the theorems: a source run that goes wrong (Fail.stuck = ill-typed IR) "
          "is only required to be matched by some outcome (ANF names all operands before the operation, so it notices an ill-typed operand later); "
          "well-typedness of the IR is C03's. Validated only: that the model equals anf.rs (exact tie on every real function, every run); the statement "
-         "lowering of go/compile.rs (compile_aexpr*, compile_while, compile_go) - covered by the stage-wise oracle on the Go stage. "
+         "lowering of go/compile.rs outside InGoFragment (inside it: Model/GoCompile.lean tied exactly by `gv gocomp`, Props/GoCompile.lean "
+         "compile_preserves / compile_order, see DESIGN 'Go back end (compile.rs) - as built') - covered by the stage-wise oracle on the Go stage. "
          "go/dce.rs has its own model (Model/Dce.lean) tied exactly to the real pass on every run (gv dce | gomlmodel dce) and Props/Dce.lean proves "
          "dce_preserves / dce_preserves_body / dce_preserves_syn: every definite Go.Sem run (normal end or panic) of a function body is reproduced by the DCE'd "
          "body with the same world, signal and result, under the decidable contract scopeErrs = [] /\\ shapeOK /\\ semOK (forward simulation; divergence of the "
@@ -405,6 +406,8 @@ CLAIMS = {
          "programs lie inside each fragment and why the others do not.",
     design_ref="§5 C01",
     note="Trusted: Sem/Go.Sem as definitions (Go.Sem reproduces all recorded corpus outputs), harness IR serialisers, the generator's coverage. "
+         "The Go back end has its own model (Model/GoCompile.lean, exact tie `gv gocomp` on every run) and, for the stage-(a) fragment, a proved "
+         "forward simulation Sem -> Go.Sem (Props/GoCompile.lean compile_preserves / compile_preserves_run); outside the fragment it stays validated here. "
          "Not covered: go_pprint.rs (AST is dumped before printing), real goroutine interleavings, Go's float formatting. "
          "SrcSem starts at ast::File: CST->AST lowering itself (operator association, literal decoding) is C11/C12's; SrcSem is validated "
          "like Go.Sem, by reproducing every recorded corpus output it can decide.",
@@ -421,7 +424,8 @@ CLAIMS = {
          "Known findings: closures in func-typed positions, nested type switch on one scrutinee, dyn-annotated struct literal.",
     design_ref="§5 C02; DCE (C02/C09) — as built",
     note="Trusted: Go.Check as our reading of the Go spec (accepts the 73 corpus programs real Go accepted, rejects 058 as real Go did); "
-         "goast dump; goparse.rs as our reading of Go's lexical grammar; compile.rs itself is validated per program, not modelled.",
+         "goast dump; goparse.rs as our reading of Go's lexical grammar; compile.rs is modelled (Model/GoCompile.lean, exact tie `gv gocomp`): the scope rules of its "
+         "output are proved for InGoFragment functions (Props/GoCompile.lean compile_wellformed + Props/Dce.lean), typing and everything outside the fragment are validated per program.",
     technique="translation validation with a Lean-defined Go type/scope checker on the real Go AST, printer round trip, and Lean theorems about the DCE pass"),
  "C14": dict(
     category="proof",
